@@ -6,8 +6,8 @@
 //                chained tables
 // Output per run:  RUN <seed> mode=<mode> n0=<buckets|0> threads=<k>\n <trace lines> END
 // The atomic-level trace (control bytes `ctl<k>` / `dummy`, `next<k>` pointers, fences, `ev yield`,
-// `ev alloc`, `ev call` / `ev ret`) is replayed in lock-step by lean/Drivers/C03.lean.  Node addresses
-// in `next<k>` lines are canonicalised to node ids (allocation order).  The property's own oracle is
+// `ev call` / `ev ret`) is replayed in lock-step by lean/Drivers/C03.lean.  Tables are named by their
+// position k in the chain; node addresses in `next<k>` lines are canonicalised to k + 1.  The property's own oracle is
 // evaluated on the real code here: `ev ORACLE <kind> ...`.
 #include "../vrt/vrt.h"
 
@@ -61,83 +61,57 @@ using Set = ConcurrentTransientHashSet<Item, IdHash>;
 using Node = Set::TableNode;
 
 // ---------------------------------------------------------------------------------------------
-// allocation hook: nodes and table buffers created by Set::emplace are named the moment they exist
-struct Tracked {
-  void* p;
-  size_t size;
-};
-static bool g_hook = false;                        // inside a run
-static thread_local bool t_in_emplace = false;
-static thread_local int t_last_node = -1;          // id of the node this thread allocated last     // inside Set::emplace of this thread
-static std::vector<Tracked>* g_tracked = nullptr;  // blocks whose release is deferred to the end of the run
-static std::vector<Node*>* g_nodes = nullptr;      // node id -> address (id 0 = &set._head)
-static std::map<size_t, size_t>* g_bufsize = nullptr;   // allocate_size -> bucket count
+// naming: tables are known by their POSITION in the chain (0 = head).  The head is named statically;
+// chained nodes are created during the run, so VRT asks this resolver, which walks the real chain.
+static Set* g_set = nullptr;
+static std::set<const void*>* g_payload_done = nullptr;
 
-static void* raw_alloc(size_t n, size_t al) {
-  void* p = nullptr;
-  if (al < sizeof(void*)) al = sizeof(void*);
-  if (posix_memalign(&p, al, n ? n : 1) != 0) abort();
-  return p;
-}
-static void name_table(Fixed* t, int id) {
+static Node* raw_next(Node* nd) { return *(Node* volatile*)&nd->next; }   // plain read, no scheduling point
+
+static void name_table(Fixed* t, int pos) {
   size_t nb = t->bucket_count();
-  vrt_namef(t->_controls, nb + 16, "ctl%d", id);
-  vrt_namef(t->_values, nb * sizeof(*t->_values), "val%d", id);
-  vrt_payload(t->_values, nb * sizeof(*t->_values), (std::string("val") + std::to_string(id)).c_str());
+  vrt_namef(t->_controls, nb + 16, "ctl%d", pos);
+  vrt_payload(t->_values, nb * sizeof(*t->_values), (std::string("val") + std::to_string(pos)).c_str());
 }
-static void* hooked_alloc(size_t n, size_t al) {
-  void* p = raw_alloc(n, al);
-  if (g_hook && t_in_emplace) {
-    static bool busy = false;
-    if (!busy) {
-      busy = true;
-      if (n == sizeof(Node)) {
-        g_tracked->push_back({p, n});
-        g_nodes->push_back((Node*)p);
-        int id = (int)g_nodes->size() - 1;
-        t_last_node = id;
-        vrt_namef((char*)p + offsetof(Node, next), sizeof(void*), "next%d", id);
-      } else if (g_bufsize->count(n) && t_last_node > 0) {
-        g_tracked->push_back({p, n});
-        size_t nb = (*g_bufsize)[n];
-        int id = t_last_node;
-        t_last_node = -1;
-        size_t voff = Fixed::calculate_values_offset(nb);
-        vrt_namef(p, nb + 16, "ctl%d", id);
-        vrt_namef((char*)p + voff, n - voff, "val%d", id);
-        vrt_payload((char*)p + voff, n - voff, (std::string("val") + std::to_string(id)).c_str());
-        vrt_event("alloc %d %zu", id, nb);
-      }
-      busy = false;
+static bool resolver(const void* addr, char* out, size_t cap) {
+  if (!g_set) return false;
+  uintptr_t a = (uintptr_t)addr;
+  int pos = 1;
+  for (Node* nd = raw_next(&g_set->_head); nd; nd = raw_next(nd), ++pos) {
+    if (a == (uintptr_t)&nd->next) {
+      snprintf(out, cap, "next%d", pos);
+      return true;
+    }
+    Fixed& t = nd->table;
+    uintptr_t c = (uintptr_t)t._controls;
+    size_t nb = t.bucket_count();
+    if (a >= c && a < c + nb + 16) {
+      if (g_payload_done->insert(t._controls).second)
+        vrt_payload(t._values, nb * sizeof(*t._values), (std::string("val") + std::to_string(pos)).c_str());
+      if (a == c) snprintf(out, cap, "ctl%d", pos);
+      else snprintf(out, cap, "ctl%d+%lu", pos, (unsigned long)(a - c));
+      return true;
     }
   }
-  return p;
+  return false;
 }
-static void hooked_free(void* p) {
-  if (p == nullptr) return;
-  if (g_tracked)
-    for (auto& t : *g_tracked)
-      if (t.p == p) return;   // deferred: addresses of a run are never reused inside the run
-  free(p);
-}
-void* operator new(size_t n) { return hooked_alloc(n, alignof(std::max_align_t)); }
-void* operator new[](size_t n) { return hooked_alloc(n, alignof(std::max_align_t)); }
-void* operator new(size_t n, std::align_val_t a) { return hooked_alloc(n, (size_t)a); }
-void* operator new[](size_t n, std::align_val_t a) { return hooked_alloc(n, (size_t)a); }
-void operator delete(void* p) noexcept { hooked_free(p); }
-void operator delete[](void* p) noexcept { hooked_free(p); }
-void operator delete(void* p, size_t) noexcept { hooked_free(p); }
-void operator delete[](void* p, size_t) noexcept { hooked_free(p); }
-void operator delete(void* p, std::align_val_t) noexcept { hooked_free(p); }
-void operator delete[](void* p, std::align_val_t) noexcept { hooked_free(p); }
-void operator delete(void* p, size_t, std::align_val_t) noexcept { hooked_free(p); }
-void operator delete[](void* p, size_t, std::align_val_t) noexcept { hooked_free(p); }
 
 // ---------------------------------------------------------------------------------------------
 struct Oracle {
   std::map<uint64_t, int> winners;            // key -> number of emplaces that reported `true`
   std::map<uint64_t, const Item*> addr;       // key -> the element every result must point to
-  std::map<uint64_t, bool> done;              // key -> some emplace of it has returned an element
+  // key -> threads that KNOW (happens-before) that an emplace of it has returned an element; -1 = everybody
+  // (returned in the main thread before the workers were spawned).  Under SC (default) real-time order is
+  // enough: any returned emplace binds every later call.  Under VRT_MEM=view only happens-before binds.
+  std::map<uint64_t, std::set<int>> known;
+  bool spawned = false, quiescent = false, view = false;
+  bool knows(uint64_t k) {
+    auto it = known.find(k);
+    if (it == known.end() || it->second.empty()) return false;
+    if (!view || quiescent) return true;
+    return it->second.count(-1) || it->second.count(vrt_tid());
+  }
+  void learn(uint64_t k) { known[k].insert(!spawned ? -1 : vrt_tid()); }
   std::map<uint64_t, bool> stored;            // key -> some emplace returned non-end (for the final census)
 };
 
@@ -147,8 +121,10 @@ struct Plan {
 
 static int node_id_of_table(const Fixed* t, const Fixed* fixed_head) {
   if (t == fixed_head) return 0;
-  for (size_t i = 0; i < g_nodes->size(); ++i)
-    if (&(*g_nodes)[i]->table == t) return (int)i;
+  if (!g_set) return -1;
+  int pos = 1;
+  for (Node* nd = raw_next(&g_set->_head); nd; nd = raw_next(nd), ++pos)
+    if (&nd->table == t) return pos;
   return -1;
 }
 
@@ -182,9 +158,7 @@ struct Runner {
     return unpack_table_it(res.first, res.second);
   }
   Out emplace_on(Set& s, Item& item, bool use_insert) {
-    t_in_emplace = true;
     auto res = use_insert ? s.insert(std::move(item)) : s.emplace(std::move(item));
-    t_in_emplace = false;
     if (res.first == s.end()) { Out r {}; r.end = true; r.inserted = res.second; return r; }
     return unpack_table_it(res.first._iter, res.second);
   }
@@ -207,7 +181,7 @@ struct Runner {
 
   void do_emplace(uint64_t k, uint64_t v, bool use_insert) {
     Item item(k, v);
-    bool must = o.done[k];
+    bool must = o.knows(k);
     vrt_event("call %s %lu %lu", is_set ? "emplace" : "templace", (unsigned long)k, (unsigned long)v);
     Out r = emplace_on(c, item, use_insert);
     if (r.end) vrt_event("ret %s end", is_set ? "emplace" : "templace");
@@ -237,12 +211,12 @@ struct Runner {
     } else {
       if (!item.live) vrt_event("ORACLE consumed-on-duplicate key %lu", (unsigned long)k);
     }
-    o.done[k] = true;
+    o.learn(k);
     o.stored[k] = true;
   }
 
   void do_find(uint64_t k) {
-    bool must = o.done[k];
+    bool must = o.knows(k);
     vrt_event("call %s %lu 0", is_set ? "find" : "tfind", (unsigned long)k);
     Out r = find_on(c, k);
     if (r.end) vrt_event("ret %s end", is_set ? "find" : "tfind");
@@ -308,33 +282,32 @@ static void run(uint64_t seed, bool is_set) {
   (void)target;
 
   // ---- container
-  g_tracked = new std::vector<Tracked>();
-  g_nodes = new std::vector<Node*>();
-  g_bufsize = new std::map<size_t, size_t>();
-  for (size_t nb = 16; nb <= 4096; nb *= 2) (*g_bufsize)[Fixed::calculate_allocate_size(nb)] = nb;
   C* cp = n0 ? new C(n0) : new C();
   C& c = *cp;
   const Fixed* head;
   vrt_unname_all();
   vrt_trace_yield(1);
+  g_payload_done = new std::set<const void*>();
   if constexpr (std::is_same<C, Set>::value) {
     head = &c._head.table;
-    g_nodes->push_back(&c._head);
+    g_set = &c;
     vrt_name(&c._head.next, sizeof(void*), "next0");
+    vrt_set_resolver(resolver);
   } else {
     head = &c;
-    g_nodes->push_back(nullptr);
+    g_set = nullptr;
   }
   vrt_name(Fixed::Group::s_dummy_controls, 32, "dummy");
   if (n0) name_table(const_cast<Fixed*>(head), 0);
 
   Oracle o;
+  o.view = getenv("VRT_MEM") && !strcmp(getenv("VRT_MEM"), "view");
   Runner<C> R {c, head, o, is_set};
-  g_hook = true;
   vrt_begin(seed);
   printf("RUN %lu mode=%s n0=%zu threads=%d\n", (unsigned long)seed, is_set ? "set" : "fixed", n0, nthreads);
   for (size_t i = 0; i < nprefix; ++i) R.do_emplace(mk_key(i), i, false);
   std::vector<std::thread> ts;
+  o.spawned = true;
   for (int t = 1; t <= nthreads; ++t) {
     uint64_t tseed = rng.next();
     ts.emplace_back([&, tseed] {
@@ -349,10 +322,10 @@ static void run(uint64_t seed, bool is_set) {
   }
   for (auto& t : ts) t.join();
   // a lookup at quiescence finds every inserted key, at the same address
+  o.quiescent = true;
   for (auto& kv : o.stored) R.do_find(kv.first);
-  uint64_t steps = vrt_steps(), switches = vrt_switches();
+  uint64_t steps = vrt_steps(), switches = vrt_switches(), stale = vrt_stale_reads();
   vrt_end();
-  g_hook = false;
   // ---- quiescent census, outside the controlled section (growth never drops or duplicates a key;
   // chain shape; size)
   std::vector<const Fixed*> tables;
@@ -383,9 +356,10 @@ static void run(uint64_t seed, bool is_set) {
     ++distinct;
   }
   if (c.size() != distinct) vrt_event("ORACLE size reports %zu, %zu distinct keys were inserted", c.size(), distinct);
-  vrt_event("stats steps %lu switches %lu tables %zu keys %zu", (unsigned long)steps, (unsigned long)switches, tables.size(), distinct);
+  vrt_event("stats steps %lu switches %lu tables %zu keys %zu stale %lu", (unsigned long)steps, (unsigned long)switches, tables.size(), distinct, (unsigned long)stale);
 
-  // ---- canonicalise node addresses in `next<k>` lines, then print
+  // ---- canonicalise node addresses in `next<p>` lines (a non-null pointer stored in the `next` field of the
+  // node at position p is the node at position p + 1), then print
   std::string tr = vrt_trace(), out;
   size_t pos = 0;
   while (pos < tr.size()) {
@@ -393,27 +367,23 @@ static void run(uint64_t seed, bool is_set) {
     if (e == std::string::npos) e = tr.size();
     std::string line = tr.substr(pos, e - pos);
     pos = e + 1;
-    if (line.find(" next") != std::string::npos && line.find(" ev ") == std::string::npos) {
-      std::string res;
+    std::vector<std::string> w;
+    {
       size_t p = 0;
-      int field = 0;
       while (p < line.size()) {
         size_t q = line.find(' ', p);
         if (q == std::string::npos) q = line.size();
-        std::string tok = line.substr(p, q - p);
-        if (field >= 3 && !tok.empty() && isdigit((unsigned char)tok[0]) && tok.size() > 6) {
-          unsigned long long a = strtoull(tok.c_str(), nullptr, 10);
-          int id = -1;
-          for (size_t i = 0; i < g_nodes->size(); ++i)
-            if ((unsigned long long)(uintptr_t)(*g_nodes)[i] == a) id = (int)i;
-          tok = id >= 0 ? std::to_string(id) : std::string("999999");
-        }
-        if (!res.empty()) res += ' ';
-        res += tok;
+        if (q > p) w.push_back(line.substr(p, q - p));
         p = q + 1;
-        ++field;
       }
-      line = res;
+    }
+    if (w.size() >= 3 && w[1] != "ev" && w[2].rfind("next", 0) == 0) {
+      unsigned long p1 = strtoul(w[2].c_str() + 4, nullptr, 10) + 1;
+      auto canon = [&](std::string& tok) { if (tok != "0") tok = std::to_string(p1); };
+      if (w[1] == "ld" && w.size() == 5) canon(w[4]);
+      else if ((w[1] == "cas" || w[1] == "casw") && w.size() == 9) { canon(w[5]); canon(w[6]); canon(w[8]); }
+      line.clear();
+      for (auto& t : w) { if (!line.empty()) line += ' '; line += t; }
     }
     out += line;
     out += '\n';
@@ -421,17 +391,11 @@ static void run(uint64_t seed, bool is_set) {
   fputs(out.c_str(), stdout);
   fputs("END\n", stdout);
   fflush(stdout);
+  vrt_set_resolver(nullptr);
+  g_set = nullptr;
   delete cp;
-  // blocks whose release was deferred: the set's destructor has "deleted" the chained nodes (ignored
-  // by the hook); the loser nodes of growth races were "deleted" inside the run
-  std::vector<Tracked> blocks = *g_tracked;
-  delete g_tracked;
-  g_tracked = nullptr;
-  for (auto& t : blocks) free(t.p);
-  delete g_nodes;
-  g_nodes = nullptr;
-  delete g_bufsize;
-  g_bufsize = nullptr;
+  delete g_payload_done;
+  g_payload_done = nullptr;
 }
 
 int main(int argc, char** argv) {
